@@ -65,16 +65,21 @@ def tier_plan(tier):
             trace_workers=10)
     return dict(
         models=[
-            dict(name='mc3-full', workers=8, cfg=dict(spec='RSpec', threads=3, symmetry=True)),
-            dict(name='mc2-full-unreduced', workers=4, cfg=dict(spec='Spec', threads=2)),
-            dict(name='mc3-unreduced', workers=4, cfg=dict(spec='Spec', threads=3, symmetry=True, nest=0, redef=0, coll=1)),
+            # the configuration of DESIGN.md section 5: 3 threads, 3 function objects over 2 code objects, 2 option
+            # values, <= 1 redefine, <= 1 collect, re-entrancy depth 2, <= 1 failing transform
+            dict(name='mc3-full', workers=5, cfg=dict(spec='RSpec', threads=3, symmetry=True)),
+            # the full next-state relation (no reduction, no symmetry), everything on, 2 threads
+            dict(name='mc2-full-unreduced', workers=3, cfg=dict(spec='Spec', threads=2)),
+            # the full next-state relation, 3 threads
+            dict(name='mc3-unreduced', workers=3, cfg=dict(spec='Spec', threads=3, symmetry=True, nest=0, redef=0, coll=1)),
+            # liveness (no symmetry): every request returns
             dict(name='mc2-live', workers=2, cfg=dict(spec='FairSpec', threads=2, redef=0, coll=1, nest=1, fail=1,
                                                      properties=('Returns',))),
         ],
-        stress_procs=10,
-        replay=dict(num=4000, configs=[dict(threads=2, req=2), dict(threads=3, req=2), dict(threads=4, req=2),
+        stress_procs=9, batch_events=150000,
+        replay=dict(num=2400, configs=[dict(threads=2, req=2), dict(threads=3, req=2), dict(threads=4, req=2),
                                        dict(threads=6, req=1, fns='Fns4')]),
-        trace_workers=12)
+        trace_workers=4)
 
 
 # ---- design level -------------------------------------------------------------------------------------
@@ -365,8 +370,9 @@ def run(rep):
                                event_kinds=kinds))
         needed = {'req', 'has_start', 'has_end', 'load', 'acquired', 'released', 'transform_begin', 'transform_ok',
                   'transform_fail', 'store', 'inst', 'ret', 'err', 'def', 'collect'}
+        vacuity = []
         if needed - set(kinds):
-            raise common.MachineryError('stress traces never exercised: %s' % sorted(needed - set(kinds)))
+            vacuity.append('stress traces never exercised: %s' % sorted(needed - set(kinds)))
         rep.sample(dict(trace_id=traces[0]['id'], threads=jobs[0]['nthreads'], first_events=traces[0]['ev'][:12]))
 
         # ---- spec -> code
@@ -400,7 +406,7 @@ def run(rep):
                        'Nested', 'TransformFail', 'TransformOk', 'Store', 'Release', 'ReleaseFail', 'Raise', 'Instantiate',
                        'Return', 'Redefine', 'Collect'}
         if all_actions - set(acts):
-            raise common.MachineryError('replayed schedules never took: %s' % sorted(all_actions - set(acts)))
+            vacuity.append('replayed schedules never took: %s' % sorted(all_actions - set(acts)))
         if sched['jobs']:
             rep.sample(dict(schedule_head=[(h['a'], h['t'], h['x']) for h in sched['jobs'][0]['hist'][:14]]))
 
@@ -411,6 +417,8 @@ def run(rep):
         timing['models_done_at'] = timer.s()
         rep.set('timing', timing)
         judge_models(rep, model_results)
+        if vacuity and not rep.violations:
+            raise common.MachineryError('; '.join(vacuity))
     finally:
         pool.terminate()
         pool.join()
@@ -498,7 +506,7 @@ def selftest():
     wanted = ['SomeStart', 'HasBegin', 'FastRead', 'HasEnd', 'FastGet', 'Acquire', 'ReCheck', 'LockGet', 'TransformBegin',
               'SomeNested', 'TransformFail', 'TransformOk', 'Store', 'Release', 'ReleaseFail', 'Raise', 'Instantiate', 'Return',
               'SomeRedefine', 'SomeCollect']
-    missing = [a for a in wanted if cov.get(a, 0) == 0]
+    missing = [a for a in wanted if cov.get(a, 0) == 0 and cov.get(a.replace('Some', ''), 0) == 0]
     print('selftest: coverage of actions: %s' % ('all taken' if not missing else 'NEVER TAKEN: %s' % missing))
     ok = ok and not missing
     # corrupted traces
